@@ -189,6 +189,35 @@ func parseSx(s string) *sx {
 	return rec()
 }
 
+// expandLets substitutes let-bound names (z3 prints shared sub-terms with let).
+func expandLets(n *sx, env map[string]*sx) *sx {
+	if n.atom != "" {
+		if v, ok := env[n.atom]; ok {
+			return v
+		}
+		return n
+	}
+	if len(n.list) == 3 && n.list[0].atom == "let" {
+		ne := map[string]*sx{}
+		for k, v := range env {
+			ne[k] = v
+		}
+		for _, b := range n.list[1].list {
+			if len(b.list) == 2 {
+				ne[b.list[0].atom] = expandLets(b.list[1], env)
+			}
+		}
+		return expandLets(n.list[2], ne)
+	}
+	out := &sx{}
+	for _, c := range n.list {
+		out.list = append(out.list, expandLets(c, env))
+	}
+	return out
+}
+
+func parseSxFull(s string) *sx { return expandLets(parseSx(s), nil) }
+
 func (n *sx) intVal() (string, bool) {
 	if n.atom != "" {
 		if regexp.MustCompile(`^[0-9]+$`).MatchString(n.atom) {
@@ -210,7 +239,7 @@ func structModel(val string, dtName string) map[string]string {
 	if !ok {
 		return nil
 	}
-	n := parseSx(val)
+	n := parseSxFull(val)
 	if len(n.list) != len(d.Fields)+1 || n.list[0].atom != "mk_"+dtName {
 		return nil
 	}
@@ -229,7 +258,7 @@ func structModel(val string, dtName string) map[string]string {
 
 // arrayAt evaluates a model array value ((as const ..) d) / (store a i v) at an integer index.
 func arrayAt(val string, idx string) (string, bool) {
-	n := parseSx(val)
+	n := parseSxFull(val)
 	for {
 		if len(n.list) == 4 && n.list[0].atom == "store" {
 			if iv, ok := n.list[2].intVal(); ok && iv == idx {
